@@ -136,6 +136,11 @@ class LocalDef:
     defaults: dict
 
 
+class _VecM:
+    def __init__(self, v, name):
+        self.v, self.name = v, name
+
+
 class Vec(list):
     """A concrete one-dimensional numpy vector (label vectors, boolean selections of them): the value of
     numpy's set routines on concrete sequences.  A list, so everything written for lists reads it; in
@@ -315,6 +320,8 @@ class Interp:
                 return (len(base),)
             if attr == "ndim":
                 return 1
+            if attr in ("tolist", "all", "any", "sum", "copy", "astype", "max", "min", "nonzero", "item"):
+                return _VecM(base, attr)
         if isinstance(base, RawFunc):
             f_ = base.func
             if attr == "__name__":
@@ -466,8 +473,25 @@ class Interp:
                     return Vec((member(x, args[1]) != inv) for x in args[0])
                 if isinstance(args[0], (int, Sym)) and not isinstance(args[0], bool):
                     return member(args[0], args[1]) != inv
-        if short in ("asarray", "array", "atleast_1d", "asanyarray", "ascontiguousarray") and len(args) == 1 and seq(args[0]) and not (set(kwargs) - {"dtype", "copy"}) and isinstance(args[0], (Vec, tuple)):
-            return Vec(args[0])
+        plain = lambda xs: all(isinstance(x, (str, int, float, Fraction, Sym)) for x in xs)
+        if short in ("asarray", "array", "atleast_1d", "asanyarray", "ascontiguousarray") and len(args) == 1 and seq(args[0]) and not (set(kwargs) - {"dtype", "copy"}) and (isinstance(args[0], (Vec, tuple)) or plain(args[0])):
+            dt_ = kwargs.get("dtype")
+            if dt_ is None or isinstance(args[0], Vec) or (isinstance(dt_, Sym) and dt_.name in ("builtin:str", "builtin:object") and all(isinstance(x, str) for x in args[0])) or not isinstance(dt_, Sym) or dt_.name not in ("builtin:str",):
+                return Vec(args[0])
+        sortable = lambda xs: xs and (all(isinstance(x, str) for x in xs) or all(isinstance(x, (int, float, Fraction)) and not isinstance(x, bool) for x in xs))
+        if short == "sort" and len(args) == 1 and seq(args[0]) and sortable(list(args[0])) and not kwargs:
+            return Vec(sorted(args[0]))
+        if short == "unique" and len(args) == 1 and seq(args[0]) and (sortable(list(args[0])) or not args[0]) and not (set(kwargs) - {"return_counts", "return_index", "return_inverse"}) and all(isinstance(v, bool) for v in kwargs.values()):
+            xs = list(args[0])
+            u = sorted(set(xs))
+            res = [Vec(u)]
+            if kwargs.get("return_index"):
+                res.append(Vec(xs.index(x) for x in u))
+            if kwargs.get("return_inverse"):
+                res.append(Vec(u.index(x) for x in xs))
+            if kwargs.get("return_counts"):
+                res.append(Vec(xs.count(x) for x in u))
+            return res[0] if len(res) == 1 else tuple(res)
         if short in ("logical_not",) and len(args) == 1 and isinstance(args[0], Vec) and all(isinstance(b, bool) for b in args[0]):
             return Vec(not b for b in args[0])
         if short in ("count_nonzero", "sum") and len(args) == 1 and isinstance(args[0], Vec) and all(isinstance(b, bool) for b in args[0]) and not kwargs:
@@ -1093,6 +1117,19 @@ class Interp:
                     return self.compare_hook(op, l, r, node)
                 return res if isinstance(op, ast.In) else not res
             return self.compare_hook(op, l, r, node)
+        if (isinstance(l, Vec) or isinstance(r, Vec)) and type(op) in _CMPOPS:
+            # numpy semantics: elementwise, a scalar is compared with every element
+            ls = list(l) if isinstance(l, (Vec, list, tuple)) else None
+            rs = list(r) if isinstance(r, (Vec, list, tuple)) else None
+            if ls is not None and rs is not None and len(ls) != len(rs):
+                if isinstance(op, (ast.Eq, ast.NotEq)):
+                    return isinstance(op, ast.NotEq)  # (shapes that do not broadcast: numpy answers with a scalar / raises)
+                raise RaiseSignal("ValueError", node)
+            n_ = len(ls) if ls is not None else len(rs)
+            out_ = Vec()
+            for i_ in range(n_):
+                out_.append(self.truth(self.compare(op, ls[i_] if ls is not None else l, rs[i_] if rs is not None else r, node), node))
+            return out_
         num = (int, float, Fraction, bool)
         if isinstance(l, num) and isinstance(r, num):
             return _CMPOPS[type(op)](l, r)
@@ -1120,6 +1157,11 @@ class Interp:
                 raise RaiseSignal("IndexError", e)
         if isinstance(base, Vec) and isinstance(idx, list) and len(idx) == len(base) and all(isinstance(b, bool) for b in idx):
             return Vec(x for x, b in zip(base, idx) if b)  # boolean selection
+        if isinstance(base, Vec) and isinstance(idx, (Vec, list)) and all(isinstance(i_, int) and not isinstance(i_, bool) for i_ in idx):
+            try:
+                return Vec(base[i_] for i_ in idx)  # selection by positions
+            except IndexError:
+                raise RaiseSignal("IndexError", e)
         if isinstance(base, dict):
             k = _hashable(idx)
             if k in base:
@@ -1321,6 +1363,24 @@ class Interp:
             if fv.name == "get":
                 k = _hashable(args[0])
                 return d.get(k, args[1] if len(args) > 1 else None)
+        if isinstance(fv, _VecM):
+            v_, n_ = fv.v, fv.name
+            bools = all(isinstance(b, bool) for b in v_)
+            if n_ == "tolist" and not args:
+                return list(v_)
+            if n_ in ("copy", "astype"):
+                return Vec(v_)
+            if n_ == "all" and bools and not args:
+                return all(v_)
+            if n_ == "any" and bools and not args:
+                return any(v_)
+            if n_ == "sum" and not args and all(isinstance(b, (bool, int)) for b in v_):
+                return sum(int(b) for b in v_)
+            if n_ in ("max", "min") and not args and v_ and all(isinstance(b, (int, float, Fraction, str)) and not isinstance(b, bool) for b in v_):
+                return (max if n_ == "max" else min)(v_)
+            if n_ == "item" and len(v_) == 1 and not args:
+                return v_[0]
+            return Unknown(f"vector.{n_}")
         if isinstance(fv, RawFunc):
             f_ = fv.func
             self.root.__dict__["_raw_once"] = f_.qual  # (subclasses override call_func: the flag travels beside it)
